@@ -7,16 +7,16 @@ import sys
 # the race-detector run of the concurrency cases costs a -race build of the package: thorough tier only
 _THOROUGH = "thorough" in sys.argv or os.environ.get("VERIF_TIER") == "thorough"
 _RACE = [Harness(name="concurrency-race", module="config/confighttp", pkg="config/confighttp",
-                 files={"zz_verif_c16_test.go": "c16/compression_test.go"},
+                 files={"zz_verif_c16_test.go": "c16/compression_test.go", "zz_verif_c16_pool_test.go": "c16/pool_test.go"},
                  test="TestVerifC16Conc", driver="drv_c16", n={"quick": 40, "thorough": 300}, timeout_s=1500, race=True)] if _THOROUGH else []
 
 SPEC = Spec(
     pid="C16",
-    lean_modules=["OtelVerif.Props.C16"],
+    lean_modules=["OtelVerif.Props.C16", "OtelVerif.Lemmas.C16Pool"],
     translators=[go_translator("compression", "OtelVerif/Gen/Compression.lean")],
     harnesses=[
         Harness(name="compression", module="config/confighttp", pkg="config/confighttp",
-                files={"zz_verif_c16_test.go": "c16/compression_test.go"},
+                files={"zz_verif_c16_test.go": "c16/compression_test.go", "zz_verif_c16_pool_test.go": "c16/pool_test.go"},
                 test="TestVerifC16", driver="drv_c16", n={"quick": 1500, "thorough": 20000}, timeout_s=1500),
     ] + _RACE,
     rule="one case = one real server (ServerConfig.ToServer: random compression_algorithms list - nil/default, random subsets in random "
@@ -26,7 +26,7 @@ SPEC = Spec(
          "library directly at levels the client cannot select, header preset -> client skip branch), garbage (hostile/corrupted/"
          "truncated streams and odd header values). Bodies: zeros, text pattern, pseudo-random incompressible, explicit bytes; "
          "corpus first (3 reproduced defects, 1 MiB zip-bomb per algorithm, 64 KiB+-1 per algorithm, thorough: 1 MiB+-1 and all "
-         "decoder-list subsets x client types). 1 case in 8 (and 3 corpus cases) builds SEVERAL servers in one process: A with WithDecoder (a new name and/or an override of a built-in) and a restricted list, then B default/random, sometimes C restricted, probing that A still rejects what it did not list and that later servers are unaffected by the registration of A; half of them also register a pass-through decoder (fn returns nil,nil) under a non-empty name with bodies at limit-1/limit/limit+1/far beyond. 1 case in 24 (and 7 corpus cases, every algorithm) is a CONCURRENCY case (monitor): handlers that Close r.Body 0-2 times, then 4-16 requests with distinct self-describing bodies (some multi-block) held at a barrier inside the handler so that they overlap for certain; oracle: every handler read exactly its own client bytes; thorough repeats 300 such cases under -race; half of the concurrency cases force the overlap inside the CLIENT compress step too (body readers block at a barrier at their first Read, after a request whose body source fails half-way; client panics recovered and reported). UNKNOWN LENGTH: 1 request in 3 (and 8 corpus cases: identity and every algorithm x body limit-1/limit/limit+1/50x) has a body source without known length (Transfer-Encoding: chunked, ContentLength -1). NAMES: the oracle judges accept/reject by the algorithm the client is CONFIGURED with and requires the Content-Encoding on the wire to be that very name; corpus: every client type against a list with exactly that name and against a list with every name but it, the deflate/zlib pair in both directions. REPLAY: 1 client request in 4 (+7 corpus cases, every algorithm) is a replay history: replayable request (Idempotency-Key / X-Idempotency-Key / GET with body, caller body with GetBody) whose first attempt on the reused keep-alive connection is killed unanswered by the server, so net/http rewinds with GetBody and resends; judged by the round-trip clause on what the handler finally reads, plus a direct check per stage that GetBody of the request handed to the inner transport yields its Body bytes. STREAMING: 1 request in 3 is consumed by the handler in chunks of 1..4096 bytes / only a prefix (k around the body length or the limit) / not at all, then Closed 0-2 times by the handler, and is followed by a full request on the same keep-alive connection (MaxConnsPerHost=1; reuse counted). non-trivial = some request was encoded, or rejected/panicked, or had a body within "
+         "decoder-list subsets x client types). 1 case in 8 (and 3 corpus cases) builds SEVERAL servers in one process: A with WithDecoder (a new name and/or an override of a built-in) and a restricted list, then B default/random, sometimes C restricted, probing that A still rejects what it did not list and that later servers are unaffected by the registration of A; half of them also register a pass-through decoder (fn returns nil,nil) under a non-empty name with bodies at limit-1/limit/limit+1/far beyond. 1 case in 24 (and 7 corpus cases, every algorithm) is a CONCURRENCY case (monitor): handlers that Close r.Body 0-2 times, then 4-16 requests with distinct self-describing bodies (some multi-block) held at a barrier inside the handler so that they overlap for certain; oracle: every handler read exactly its own client bytes; thorough repeats 300 such cases under -race; half of the concurrency cases force the overlap inside the CLIENT compress step too (body readers block at a barrier at their first Read, after a request whose body source fails half-way; client panics recovered and reported). UNKNOWN LENGTH: 1 request in 3 (and 8 corpus cases: identity and every algorithm x body limit-1/limit/limit+1/50x) has a body source without known length (Transfer-Encoding: chunked, ContentLength -1). NAMES: the oracle judges accept/reject by the algorithm the client is CONFIGURED with and requires the Content-Encoding on the wire to be that very name; corpus: every client type against a list with exactly that name and against a list with every name but it, the deflate/zlib pair in both directions. REPLAY: 1 client request in 4 (+7 corpus cases, every algorithm) is a replay history: replayable request (Idempotency-Key / X-Idempotency-Key / GET with body, caller body with GetBody) whose first attempt on the reused keep-alive connection is killed unanswered by the server, so net/http rewinds with GetBody and resends; judged by the round-trip clause on what the handler finally reads, plus a direct check per stage that GetBody of the request handed to the inner transport yields its Body bytes. STREAMING: 1 request in 3 is consumed by the handler in chunks of 1..4096 bytes / only a prefix (k around the body length or the limit) / not at all, then Closed 0-2 times by the handler, and is followed by a full request on the same keep-alive connection (MaxConnsPerHost=1; reuse counted). POOL histories (6 corpus cases x 12 steps + 1 random case in 12): sequential histories over the REAL process-wide writer pools in-package - newCompressor (pointer identity for equal keys), compressor.compress and compressRoundTripper.RoundTrip over a recording inner transport; keys = every type x two levels; bodies failing at offset 0 / half / last byte, failing Close, Body == nil, http.NoBody, empty, 64 KiB+-1, 100 kB; every output compared (length + FNV-1a; lz4 modulo decoding) with a FRESH writer built by the key's own constructor and decoded by the library. non-trivial = some request was encoded, or rejected/panicked, or had a body within "
          "+-1 of the limit; distinct = distinct op sequences (sha1 of the op lines).",
     trusted_base=[
         "Lean 4.33.0 kernel; axioms per theorem listed under axioms_per_theorem (subset of propext, Classical.choice, Quot.sound)",
@@ -39,6 +39,12 @@ SPEC = Spec(
         "round-trip law dec(enc b)=b is the HYPOTHESIS of the round-trip theorems, validated by the differential (the driver assumes "
         "the law and must then predict exactly what the real handler read, by length and FNV-1a hash); what a library yields from a "
         "cut or corrupt stream is taken from the implementation as a model input (dec=...)",
+        "client-side writer pools (Model/C16Pool.lean): the LIBRARY LAW of a writer - Reset(buf) makes it behave as new and point at buf, "
+        "Close completes the stream in its current target, a writer touches no other buffer - is a stated parameter (enc), sampled by the "
+        "want= comparison of every pool step (pierrec/lz4 only modulo decoding: a Reset writer frames differently from a new one); "
+        "sync.Pool (Get returns any idle item or New; items may be dropped) and the mutex around compressorPools are the model's "
+        "nondeterministic / atomic labels; ownership of a writer is linear by construction = the single Get / single deferred Put pinned by "
+        "the translator (compressSteps, poolSelectorUses)",
         "net/http: MaxBytesReader semantics (modelled as limitRead), header canonicalisation, request framing; FNV-1a collisions",
     ],
     assumptions=[
@@ -46,7 +52,8 @@ SPEC = Spec(
         "compression LEVELS: which levels ClientConfig.Validate accepts is regenerated from Type.ValidateParams and predicted by the model for every configuration the harness tries (1 case in 6 sits on the boundary, both sides); that gzip/zlib accept exactly -2..9 and zstd any level is a library fact (libLevelOk, trusted); that an accepted level then ROUND-TRIPS is the codec law, sampled at every accepted boundary level",
         "the round-trip law of gzip/zlib/zstd/snappy/lz4 is SAMPLED, not proved: most random bodies are <= 4 KiB, 1 case in 12 goes up to 300 kB and 1 in 48 up to 1.2 MB (multi-block), the corpus adds 64 KiB+-1, 200-300 kB at every level, 1 MiB bombs; 4 MiB+ only in thorough",
         "C16_isolation*, C16_error_handler, C16_limit_any_read_mode, C16_decoded_request_is_relabelled are bookkeeping theorems: true by the shape of their definitions; their tie to the code is a translator flag/shape check plus harness cases, not a proof about Go code",
-        "overlap of requests in time is MONITORED (conc cases, -race in thorough), not modelled",
+        "overlap of requests in time is MONITORED (conc cases, -race in thorough) on the real code; the CLIENT-side pool discipline is additionally "
+        "PROVED for every interleaving of the model's statement steps (C16_pool_output, C16_pool_key), the server side is not modelled concurrently",
         "WithErrorHandler is modelled as a status function on the rejection path (serveE; the harness registers one answering status+18/22/51 in 1 case of 6); WithDecoder decoders are modelled as further lawful/hostile codecs keyed custom:<id> (the harness registers an xor decoder)",
     ],
 )
